@@ -282,8 +282,6 @@ addIfNotFound(
 }
 
 
-static const NodeRefList    theEmptyList(XalanMemMgrs::getDummyMemMgr());
-
 void
 KeyTable::processKeyDeclaration(
             KeysMapType&                    theKeys,
@@ -296,7 +294,16 @@ KeyTable::processKeyDeclaration(
     // use attribute in xsl:key.
     assert(kd.getUse() != 0);
 
-    const XObjectPtr    xuse(kd.getUse()->execute(testNode, resolver, theEmptyList, executionContext));
+    // XSLT 1.0, section 12.2: the use expression is evaluated with the node
+    // as the current node and with a node list containing just that node as
+    // the current node list, so position() and last() are both 1.
+    typedef StylesheetExecutionContext::BorrowReturnMutableNodeRefList  BorrowReturnMutableNodeRefList;
+
+    BorrowReturnMutableNodeRefList  theContextNodeList(executionContext);
+
+    theContextNodeList->addNode(testNode);
+
+    const XObjectPtr    xuse(kd.getUse()->execute(testNode, resolver, *theContextNodeList, executionContext));
 
     if(xuse->getType() != XObject::eTypeNodeSet)
     {
